@@ -22,6 +22,19 @@
 //! random programs (send / group_send / firmware_version / fpga_state / enable flags / close, real
 //! datagrams, real emulators) through both controllers, comparing results, frames, acknowledgements
 //! and enable flags (oracle only, no model lines).
+//!
+//! C11 dimensions (coverage review C11 1-4), and how each reaches the verdict:
+//!  * **runtime flavour** — model-visible: chunks that start with a `flavor mt` line run the async controller on a
+//!    multi-thread tokio runtime, where `Drop` must close a link that says open (failed `open`; `close <CLOSE> o<CLOSE>`
+//!    = the link still says open when `close(self)` drops the controller); the model (`dropAsyncOn`) and the
+//!    lock-step comparison (no exemption on that flavour) both look at the calls `Drop` makes;
+//!  * **sleeper calls** — oracle only: the no-op sleeper counts `sleep_until` calls, compared between the copies;
+//!  * **boxed link** — invisible to the model (same lines): every eighth chunk converts the controller with
+//!    `into_boxed_link()` after `open` (and back with `from_boxed_link` before every other `close`);
+//!  * **real sleepers / default-option shortcuts** — oracle only, program phase: `Controller::send`,
+//!    `Controller::group_send` and `SenderOption { sleeper: StdSleeper | SpinSleeper | AsyncSleeper }` with multi-frame
+//!    datagrams; besides equality of everything recorded, the link holds the async sender to its send slots
+//!    (one-sided bound, see `RecLink::rec`).
 use crate::common::*;
 use autd3::controller::{ParallelMode, SenderOption, Sleep};
 use autd3::prelude::*;
@@ -181,7 +194,13 @@ enum Case {
     SendX { t: T, td: T },
     FwVer { scs: Vec<SendS> },
     Fpga { open: bool, recv: Recv },
-    Close { c: CloseS },
+    /// `drop`: what the link answers when the controller is dropped at the end of `close(self)` (`Closed` = it says
+    /// closed, as a link does after `close`)
+    Close { c: CloseS, drop: CloseS },
+    /// (`sender_async` only) the tokio runtime the controllers of the rest of the chunk live on: multi-thread
+    /// (`Drop` of the async controller closes a link that says open) or current-thread.  `sync_dup`: the chunk is a
+    /// copy of another one that differs in nothing else, so the `sender` stream skips it
+    Flavor { mt: bool, sync_dup: bool },
     /// `geometry_mut()`: set `Device::enable` of every device
     Enable { mask: Vec<bool> },
     /// real `CPUEmulator`s with a left-over message id (not scripted; own link)
@@ -215,7 +234,15 @@ impl Case {
             Case::SendX { t, td } => format!("sendx {} {}", t.ch(), td.ch()),
             Case::FwVer { scs } => format!("fwver {}", scs.iter().map(|s| s.text()).collect::<Vec<_>>().join(" ")),
             Case::Fpga { open, recv } => format!("fpga {} {}", if *open { "o" } else { "c" }, recv.text()),
-            Case::Close { c } => format!("close {} c", c.text()),
+            Case::Close { c, drop } => format!(
+                "close {} {}",
+                c.text(),
+                match drop {
+                    CloseS::Closed => "c".to_string(),
+                    d => format!("o{}", d.text()),
+                }
+            ),
+            Case::Flavor { mt, .. } => format!("flavor {}", if *mt { "mt" } else { "ct" }),
             Case::Enable { mask } => format!("enable {}", bits(mask)),
             Case::Stale { ids } => format!("stale {}", ids.iter().map(|f| f.to_string()).collect::<Vec<_>>().join(" ")),
         }
@@ -610,14 +637,24 @@ impl Datagram for Frames {
     }
 }
 
-#[derive(Debug, Clone, Copy)]
-struct NoSleep;
+/// The sleeper of every scripted case: it does not sleep, it **counts** how often the sender asked it to (once
+/// after every receive that neither ended the wait nor timed out, once between two frames of a datagram).  The
+/// count is compared between the two controllers (C11: an `.await` lost on a `sleep_until` call leaves the
+/// future un-polled, the async sender busy-polls and this count stays behind) and with the number the link's
+/// own record of the call implies; it is not part of the model line.
+#[derive(Debug, Clone, Default)]
+struct NoSleep {
+    n: Arc<AtomicUsize>,
+}
 impl Sleep for NoSleep {
-    fn sleep_until(&self, _: Instant) {}
+    fn sleep_until(&self, _: Instant) {
+        self.n.fetch_add(1, Ordering::SeqCst);
+    }
 }
 #[autd3_core::async_trait]
 impl AsyncSleep for NoSleep {
     async fn sleep_until(&self, _: Instant) {
+        self.n.fetch_add(1, Ordering::SeqCst);
         tokio::task::yield_now().await
     }
 }
@@ -650,11 +687,33 @@ fn show_autd_err(e: &AUTDError) -> String {
 enum Ctl {
     Sync(Controller<ScriptLink>),
     Async(autd3::r#async::Controller<ScriptLink>),
+    /// the same controller after `into_boxed_link()`: every link call goes through `impl AsyncLink for Box<dyn AsyncLink>`
+    AsyncBoxed(autd3::r#async::Controller<Box<dyn AsyncLink>>),
+}
+
+/// run `$s` on the sync controller or `$a` (inside `block_on` of runtime `$rt`) on the async one, plain or boxed
+macro_rules! on_ctl {
+    ($ctl:expr, $rt:expr, |$c:ident| sync $s:expr, async $a:expr) => {
+        match $ctl {
+            Ctl::Sync($c) => $s,
+            Ctl::Async($c) => $rt.block_on(async { $a }),
+            Ctl::AsyncBoxed($c) => $rt.block_on(async { $a }),
+        }
+    };
 }
 
 struct Worker {
     is_async: bool,
     rt: tokio::runtime::Runtime,
+    /// async workers: a multi-thread runtime (one worker thread) for the chunks that start with `flavor mt`
+    rt_mt: Option<tokio::runtime::Runtime>,
+    /// the controllers of the current chunk live on `rt_mt`
+    mt: bool,
+    /// async workers: the controllers of the current chunk are converted with `into_boxed_link()` after `open`
+    /// (same op lines, same model; set per chunk by the driver loop)
+    boxed: bool,
+    /// how often the sender called `sleep_until` during the current call
+    sleeps: Arc<AtomicUsize>,
     link: Arc<Mutex<LinkState>>,
     ctl: Option<Ctl>,
     n: usize,
@@ -671,6 +730,15 @@ struct Ran {
     why: &'static str,
     overrun: bool,
     leftover: usize,
+    /// calls of `sleep_until` on the harness sleeper during the call (`open`, `send`, `sendx`: the other calls use
+    /// the crate's default sleepers)
+    sleeps: usize,
+    /// the controller lived on the multi-thread runtime / behind `Box<dyn AsyncLink>`
+    mt: bool,
+    boxed: bool,
+    /// the controller was dropped in this call while the scripted link said it was open, by a copy/flavour whose
+    /// `Drop` closes (sync; async on a multi-thread runtime)
+    drop_must_close: bool,
 }
 
 fn devices(n: usize) -> Vec<Device> {
@@ -679,7 +747,7 @@ fn devices(n: usize) -> Vec<Device> {
 
 /// `zero_iv`: every other case runs with zero send/receive intervals (legal back-to-back polling). With the
 /// no-op sleeper the intervals only feed `sleep_until`, so the answers (and the model) do not depend on them.
-fn option(t: T, par: u8, zero_iv: bool) -> SenderOption<NoSleep> {
+fn option(t: T, par: u8, zero_iv: bool, sleeps: &Arc<AtomicUsize>) -> SenderOption<NoSleep> {
     let iv = if zero_iv { Duration::ZERO } else { Duration::from_millis(1) };
     SenderOption {
         send_interval: iv,
@@ -690,7 +758,7 @@ fn option(t: T, par: u8, zero_iv: bool) -> SenderOption<NoSleep> {
             2 => ParallelMode::Off,
             _ => ParallelMode::Auto,
         },
-        sleeper: NoSleep,
+        sleeper: NoSleep { n: sleeps.clone() },
     }
 }
 
@@ -699,6 +767,10 @@ impl Worker {
         Worker {
             is_async,
             rt: tokio::runtime::Builder::new_current_thread().enable_time().build().unwrap(),
+            rt_mt: if is_async { Some(tokio::runtime::Builder::new_multi_thread().worker_threads(1).enable_time().build().unwrap()) } else { None },
+            mt: false,
+            boxed: false,
+            sleeps: Arc::new(AtomicUsize::new(0)),
             link: Arc::new(Mutex::new(LinkState::default())),
             ctl: None,
             n: 0,
@@ -716,6 +788,11 @@ impl Worker {
         self.link = Arc::new(Mutex::new(LinkState::default()));
     }
 
+    /// does dropping this worker's controller close a link that says it is open?
+    fn drop_closes(&self) -> bool {
+        !self.is_async || self.mt
+    }
+
     fn finish(&mut self, result: String) -> Ran {
         let mut l = self.link.lock().unwrap();
         l.settle();
@@ -729,13 +806,24 @@ impl Worker {
             why: l.why,
             overrun: l.overrun,
             leftover: l.leftover(),
+            sleeps: self.sleeps.load(Ordering::SeqCst),
+            mt: self.mt,
+            boxed: matches!(self.ctl, Some(Ctl::AsyncBoxed(_))),
+            drop_must_close: false,
         }
     }
 
     fn run(&mut self, case: &Case) -> Ran {
         self.tick += 1;
         let zero_iv = self.tick % 2 == 0;
-        watch(format!("{} [{} controller, send/receive interval {}]", case.text(), if self.is_async { "async" } else { "sync" }, if zero_iv { "0" } else { "1 ms" }));
+        watch(format!(
+            "{} [{} controller{}{}, send/receive interval {}]",
+            case.text(),
+            if self.is_async { "async" } else { "sync" },
+            if self.mt { " on a multi-thread runtime" } else { "" },
+            if self.boxed { ", link boxed after open" } else { "" },
+            if zero_iv { "0" } else { "1 ms" }
+        ));
         let r = self.run_inner(case, zero_iv);
         unwatch();
         r
@@ -746,26 +834,37 @@ impl Worker {
         match &self.ctl {
             Some(Ctl::Sync(c)) => c.geometry().iter().map(|d| d.enable).collect(),
             Some(Ctl::Async(c)) => c.geometry().iter().map(|d| d.enable).collect(),
+            Some(Ctl::AsyncBoxed(c)) => c.geometry().iter().map(|d| d.enable).collect(),
             None => vec![true; self.n],
         }
     }
 
     fn run_inner(&mut self, case: &Case, zero_iv: bool) -> Ran {
-        if !matches!(case, Case::Open { .. } | Case::Stale { .. }) {
+        if !matches!(case, Case::Open { .. } | Case::Stale { .. } | Case::Flavor { .. }) {
             let en = self.enable_now();
             self.link.lock().unwrap().enabled = en;
         }
+        self.sleeps.store(0, Ordering::SeqCst);
+        let sleeps = self.sleeps.clone();
         match case {
+            Case::Flavor { mt, .. } => {
+                // between controllers only (the driver loop puts it in front of an `open`)
+                self.dispose();
+                self.mt = *mt && self.is_async;
+                let result = case.text();
+                Ran { answer: result.clone(), result, calls: vec![], en: vec![], compromised: false, why: "", overrun: false, leftover: 0, sleeps: 0, mt: self.mt, boxed: false, drop_must_close: false }
+            }
             Case::Enable { mask } => {
                 self.link.lock().unwrap().reset_script(None);
                 match self.ctl.as_mut().unwrap() {
                     Ctl::Sync(c) => c.geometry_mut().iter_mut().zip(mask.iter()).for_each(|(d, b)| d.enable = *b),
                     Ctl::Async(c) => c.geometry_mut().iter_mut().zip(mask.iter()).for_each(|(d, b)| d.enable = *b),
+                    Ctl::AsyncBoxed(c) => c.geometry_mut().iter_mut().zip(mask.iter()).for_each(|(d, b)| d.enable = *b),
                 }
                 let now = self.enable_now();
                 let mut l = self.link.lock().unwrap();
                 let result = format!("set {}", bits(&now));
-                Ran { answer: result.clone(), result, calls: vec![], en: l.enabled.clone(), compromised: false, why: "", overrun: false, leftover: { l.settle(); 0 } }
+                Ran { answer: result.clone(), result, calls: vec![], en: l.enabled.clone(), compromised: false, why: "", overrun: false, leftover: { l.settle(); 0 }, sleeps: 0, mt: self.mt, boxed: matches!(self.ctl, Some(Ctl::AsyncBoxed(_))), drop_must_close: false }
             }
             Case::Open { n, t, open_ok, ff, cs, drop } => {
                 self.dispose();
@@ -784,16 +883,18 @@ impl Worker {
                     if matches!(drop, CloseS::Open { .. }) {
                         l.q_is_open.push_back(true);
                     }
-                    if !(self.is_async && matches!(drop, CloseS::Open { .. })) {
+                    if !(!self.drop_closes() && matches!(drop, CloseS::Open { .. })) {
                         l.load_close(drop);
                     }
                     drop_entries = l.leftover() - drop_entries;
                 }
                 let link = ScriptLink(self.link.clone());
-                let opt = option(*t, 0, zero_iv);
+                let opt = option(*t, 0, zero_iv, &sleeps);
                 let r = if self.is_async {
-                    let r = self.rt.block_on(async { autd3::r#async::Controller::open_with_option(devices(*n), link, opt).await });
-                    r.map(Ctl::Async)
+                    let rt = if self.mt { self.rt_mt.as_ref().unwrap() } else { &self.rt };
+                    let r = rt.block_on(async { autd3::r#async::Controller::open_with_option(devices(*n), link, opt).await });
+                    // same op line, same model: all further link calls go through the `Box<dyn AsyncLink>` forwarder
+                    r.map(|c| if self.boxed { Ctl::AsyncBoxed(c.into_boxed_link()) } else { Ctl::Async(c) })
                 } else {
                     Controller::open_with_option(devices(*n), link, opt).map(Ctl::Sync)
                 };
@@ -811,6 +912,8 @@ impl Worker {
                 if self.ctl.is_some() || !*open_ok {
                     // nothing was dropped: the drop script is not a leftover
                     ran.leftover = ran.leftover.saturating_sub(drop_entries);
+                } else {
+                    ran.drop_must_close = self.drop_closes() && matches!(drop, CloseS::Open { .. });
                 }
                 ran
             }
@@ -822,11 +925,9 @@ impl Worker {
                     l.load_send(sc);
                 }
                 let d = Frames { per_dev: frames.clone(), timeout: td.dur().unwrap(), gen_fail: false };
-                let opt = option(*t, *par, zero_iv);
-                let r = match self.ctl.as_mut().unwrap() {
-                    Ctl::Sync(c) => c.sender(opt).send(d),
-                    Ctl::Async(c) => self.rt.block_on(async { c.sender(opt).send(d).await }),
-                };
+                let opt = option(*t, *par, zero_iv, &sleeps);
+                let rt = if self.mt { self.rt_mt.as_ref().unwrap() } else { &self.rt };
+                let r = on_ctl!(self.ctl.as_mut().unwrap(), rt, |c| sync c.sender(opt).send(d), async c.sender(opt).send(d).await);
                 let res = match r {
                     Ok(()) => "ok".to_string(),
                     Err(e) => format!("err:{}", show_driver_err(&e, false)),
@@ -836,11 +937,9 @@ impl Worker {
             Case::SendX { t, td } => {
                 self.link.lock().unwrap().reset_script(None);
                 let d = Frames { per_dev: vec![1; self.n], timeout: td.dur().unwrap(), gen_fail: true };
-                let opt = option(*t, 0, zero_iv);
-                let r = match self.ctl.as_mut().unwrap() {
-                    Ctl::Sync(c) => c.sender(opt).send(d),
-                    Ctl::Async(c) => self.rt.block_on(async { c.sender(opt).send(d).await }),
-                };
+                let opt = option(*t, 0, zero_iv, &sleeps);
+                let rt = if self.mt { self.rt_mt.as_ref().unwrap() } else { &self.rt };
+                let r = on_ctl!(self.ctl.as_mut().unwrap(), rt, |c| sync c.sender(opt).send(d), async c.sender(opt).send(d).await);
                 let res = match r {
                     Ok(()) => "ok".to_string(),
                     Err(e) => format!("err:{}", show_driver_err(&e, true)),
@@ -858,10 +957,8 @@ impl Worker {
                         }
                     }
                 }
-                let r = match self.ctl.as_mut().unwrap() {
-                    Ctl::Sync(c) => c.firmware_version(),
-                    Ctl::Async(c) => self.rt.block_on(async { c.firmware_version().await }),
-                };
+                let rt = if self.mt { self.rt_mt.as_ref().unwrap() } else { &self.rt };
+                let r = on_ctl!(self.ctl.as_mut().unwrap(), rt, |c| sync c.firmware_version(), async c.firmware_version().await);
                 let res = match r {
                     Ok(v) => format!(
                         "ok:[{}]",
@@ -884,10 +981,8 @@ impl Worker {
                     l.q_is_open.push_back(*open);
                     l.q_recv.push_back((recv.clone(), false));
                 }
-                let r = match self.ctl.as_mut().unwrap() {
-                    Ctl::Sync(c) => c.fpga_state(),
-                    Ctl::Async(c) => self.rt.block_on(async { c.fpga_state().await }),
-                };
+                let rt = if self.mt { self.rt_mt.as_ref().unwrap() } else { &self.rt };
+                let r = on_ctl!(self.ctl.as_mut().unwrap(), rt, |c| sync c.fpga_state(), async c.fpga_state().await);
                 let res = match r {
                     Ok(v) => format!(
                         "ok:[{}]",
@@ -906,7 +1001,8 @@ impl Worker {
                 ran.leftover = 0;
                 ran
             }
-            Case::Close { c } => {
+            Case::Close { c, drop } => {
+                let drop_entries;
                 {
                     let mut l = self.link.lock().unwrap();
                     l.reset_script(Some(Duration::from_millis(DEFAULT_MS)));
@@ -916,11 +1012,31 @@ impl Worker {
                     if matches!(c, CloseS::Open { .. }) {
                         l.enabled = vec![true; self.n];
                     }
+                    // `close(self)` ends with `Drop`: it asks `is_open` (an exhausted script answers "closed");
+                    // a copy whose `Drop` closes then runs `close_impl`, which asks again
+                    let before = l.leftover();
+                    if matches!(drop, CloseS::Open { .. }) {
+                        l.q_is_open.push_back(true);
+                        l.enabled = vec![true; self.n];
+                        if self.drop_closes() {
+                            l.load_close(drop);
+                        }
+                    }
+                    drop_entries = l.leftover() - before;
                 }
+                let _ = drop_entries;
                 let en_before = self.enable_now();
+                let rt = if self.mt { self.rt_mt.as_ref().unwrap() } else { &self.rt };
+                let was_boxed = matches!(self.ctl, Some(Ctl::AsyncBoxed(_)));
                 let r = match self.ctl.take().unwrap() {
                     Ctl::Sync(c) => c.close(),
-                    Ctl::Async(c) => self.rt.block_on(async { c.close().await }),
+                    Ctl::Async(c) => rt.block_on(async { c.close().await }),
+                    // every other time: back through `from_boxed_link` first
+                    Ctl::AsyncBoxed(c) if self.tick % 4 < 2 => {
+                        let c = unsafe { autd3::r#async::Controller::<ScriptLink>::from_boxed_link(c) };
+                        rt.block_on(async { c.close().await })
+                    }
+                    Ctl::AsyncBoxed(c) => rt.block_on(async { c.close().await }),
                 };
                 let res = match r {
                     Ok(()) => "ok".to_string(),
@@ -928,6 +1044,8 @@ impl Worker {
                 };
                 let mut ran = self.finish(res);
                 ran.en = en_before;
+                ran.boxed = was_boxed;
+                ran.drop_must_close = self.drop_closes() && matches!(drop, CloseS::Open { .. });
                 ran
             }
             Case::Stale { ids } => {
@@ -949,7 +1067,7 @@ fn run_guarded(w: &mut Worker, case: &Case) -> Ran {
             }
             w.link = Arc::new(Mutex::new(LinkState::default()));
             let first = msg.lines().next().unwrap_or("").chars().take(80).collect::<String>();
-            Ran { answer: format!("panic | {}", show_calls(&calls)), result: format!("panic({first})"), calls, en: vec![], compromised: false, why: "", overrun: false, leftover: 0 }
+            Ran { answer: format!("panic | {}", show_calls(&calls)), result: format!("panic({first})"), calls, en: vec![], compromised: false, why: "", overrun: false, leftover: 0, sleeps: 0, mt: w.mt, boxed: w.boxed, drop_must_close: false }
         }
     }
 }
@@ -1049,7 +1167,7 @@ fn run_stale(w: &mut Worker, ids: &[u8]) -> Ran {
     let cpus = Arc::new(Mutex::new(cpus));
     let acks = Arc::new(Mutex::new(vec![]));
     let link = EmuLink { cpus: cpus.clone(), open: false, acks: acks.clone(), fail_sends: 0 };
-    let opt = option(T::S, 0, false);
+    let opt = option(T::S, 0, false, &w.sleeps);
     let mut clear = vec![false; n];
     let mut sync = vec![false; n];
     let mut first = vec![false; n];
@@ -1061,7 +1179,7 @@ fn run_stale(w: &mut Worker, ids: &[u8]) -> Ran {
     };
     let res = if w.is_async {
         w.rt.block_on(async {
-            match autd3::r#async::Controller::open_with_option(devices(n), link, opt).await {
+            match autd3::r#async::Controller::open_with_option(devices(n), link, opt.clone()).await {
                 Ok(mut c) => {
                     snapshot(&mut clear, &mut sync);
                     let r = c.sender(opt).send(ReadsFPGAState::new(|_| true)).await;
@@ -1082,7 +1200,7 @@ fn run_stale(w: &mut Worker, ids: &[u8]) -> Ran {
             }
         })
     } else {
-        match Controller::open_with_option(devices(n), link, opt) {
+        match Controller::open_with_option(devices(n), link, opt.clone()) {
             Ok(mut c) => {
                 snapshot(&mut clear, &mut sync);
                 let r = c.sender(opt).send(ReadsFPGAState::new(|_| true));
@@ -1107,7 +1225,7 @@ fn run_stale(w: &mut Worker, ids: &[u8]) -> Ran {
     let acks = acks.lock().unwrap();
     let shown = acks.iter().take(3).cloned().collect::<Vec<_>>().join(" ");
     let result = format!("{res} clear={} sync={} first={}", bits(&clear), bits(&sync), bits(&first));
-    Ran { answer: format!("{result} | {shown}"), result, calls: vec![], en: vec![true; n], compromised: false, why: "", overrun: false, leftover: 0 }
+    Ran { answer: format!("{result} | {shown}"), result, calls: vec![], en: vec![true; n], compromised: false, why: "", overrun: false, leftover: 0, sleeps: 0, mt: false, boxed: false, drop_must_close: false }
 }
 
 
@@ -1160,6 +1278,20 @@ fn build(d: &DG) -> autd3_driver::datagram::BoxedDatagram {
     }
 }
 
+/// which real sleeper a program step hands to the sender
+#[derive(Clone, Copy, Debug, PartialEq, Eq)]
+enum Slp {
+    /// `StdSleeper` (both copies)
+    Std,
+    /// `SpinSleeper` (both copies)
+    Spin,
+    /// `AsyncSleeper` (tokio timer) in the async copy, `SpinSleeper` (the sync default) in the sync copy
+    Tokio,
+}
+
+/// send/receive interval of the steps that use a real sleeper
+const PACE_MS: u64 = 2;
+
 #[derive(Clone, Debug)]
 enum POp {
     Send(DG),
@@ -1168,10 +1300,36 @@ enum POp {
     FwVer,
     Fpga,
     Enable(usize, bool),
+    /// `Controller::send`: the default-option shortcut (1 ms intervals, the datagram's own timeout, the crate's
+    /// default sleeper: `AsyncSleeper` / `SpinSleeper`)
+    SendDefault(DG),
+    /// `Controller::group_send`: the same shortcut
+    GroupDefault { modulus: usize, none_rem: Option<usize>, dgs: Vec<(usize, DG)> },
+    /// `sender(SenderOption { sleeper, send_interval: PACE_MS, receive_interval: PACE_MS, .. }).send(..)`
+    SendSlp(Slp, DG),
+    /// … `.group_send(..)`
+    GroupSlp { slp: Slp, modulus: usize, none_rem: Option<usize>, dgs: Vec<(usize, DG)> },
+}
+
+/// where a program runs (the async copy; the sync copy ignores `mt`/`boxed`)
+#[derive(Clone, Copy, Debug, PartialEq, Eq)]
+struct ProgEnv {
+    /// multi-thread tokio runtime (one worker thread) instead of a current-thread one
+    mt: bool,
+    /// `into_boxed_link()` right after open: every link call goes through `impl AsyncLink for Box<dyn AsyncLink>`
+    boxed: bool,
+    /// the program ends by dropping the controller instead of closing it (multi-thread runtime only: there the
+    /// async `Drop` must close like the sync one; on a current-thread runtime it intentionally does nothing)
+    end_drop: bool,
 }
 
 struct ProgLog {
     lines: Vec<String>,
+    /// frames (2nd, 3rd, … of a datagram) that the link saw earlier than `k x send_interval` after the datagram's
+    /// `link.update`: the sender did not wait for its slot
+    early: Vec<String>,
+    /// frames to which that bound applied
+    paced: usize,
 }
 
 fn rand_dg(rng: &mut Rng) -> DG {
@@ -1194,58 +1352,137 @@ fn rand_dg(rng: &mut Rng) -> DG {
     }
 }
 
+/// datagrams that take several frames (so that `send_interval` and the sleeper matter), mixed with the others
+fn rand_dg_paced(rng: &mut Rng) -> DG {
+    match rng.below(6) {
+        0 => DG::GainStm(*rng.pick(&[5u8, 8, 4]), rng.below(256) as u8),
+        1 => DG::FociStm(*rng.pick(&[25u8, 20, 16])),
+        2 => DG::SineGainStm(*rng.pick(&[100u32, 150]), *rng.pick(&[4u8, 5])),
+        3 => DG::GainStm(2, rng.below(256) as u8),
+        _ => rand_dg(rng),
+    }
+}
+
+fn rand_group(rng: &mut Rng, n: usize, paced: bool) -> (usize, Option<usize>, Vec<(usize, DG)>, u8) {
+    let modulus = 1 + rng.below(n.min(3) as u64) as usize;
+    let none_rem = if rng.chance(1, 3) { Some(rng.below(modulus as u64 + 1) as usize) } else { None };
+    let mut dgs: Vec<(usize, DG)> = (0..modulus).filter(|k| Some(*k) != none_rem).map(|k| (k, if paced { rand_dg_paced(rng) } else { rand_dg(rng) })).collect();
+    // at most one anomaly per call, so that HashMap iteration order cannot matter. A datagram whose
+    // STM size gives an invalid sampling frequency is an anomaly too (it is refused when its
+    // operation generator is built): keep at most one of those and plant nothing else next to it
+    let fails = |d: &DG| matches!(d, DG::SineGainStm(_, 3) | DG::GainStm(7, _) | DG::FociStm(11 | 3) | DG::Bad);
+    let mut seen_failing = false;
+    for (_, d) in dgs.iter_mut() {
+        if fails(d) {
+            if seen_failing {
+                *d = DG::Null;
+            }
+            seen_failing = true;
+        }
+    }
+    match if seen_failing { 7 } else { rng.below(8) } {
+        0 if !dgs.is_empty() => {
+            dgs.remove(0); // unknown key
+        }
+        1 => dgs.push((7, DG::Null)), // unused key
+        2 if !dgs.is_empty() => dgs[0].1 = DG::Bad,
+        _ => {}
+    }
+    // a pack-time failure under parallel packing leaves schedule-dependent message ids
+    // (DESIGN observation O4): such calls are made with serial packing only
+    let pack_fails = dgs.iter().any(|(_, d)| matches!(d, DG::SineGainStm(_, 3) | DG::GainStm(7, _) | DG::FociStm(11 | 3)));
+    let par = if pack_fails { 2 } else { rng.below(3) as u8 };
+    (modulus, none_rem, dgs, par)
+}
+
+fn rand_slp(rng: &mut Rng) -> Slp {
+    *rng.pick(&[Slp::Tokio, Slp::Tokio, Slp::Std, Slp::Spin])
+}
+
 fn rand_program(rng: &mut Rng, n: usize) -> Vec<POp> {
     let len = 3 + rng.below(8) as usize;
     let mut ops = vec![];
     for _ in 0..len {
-        ops.push(match rng.below(10) {
+        ops.push(match rng.below(13) {
             0 | 1 | 2 => POp::Send(if rng.chance(1, 12) { DG::Bad } else { rand_dg(rng) }),
             3 | 4 | 5 | 6 => {
-                let modulus = 1 + rng.below(n.min(3) as u64) as usize;
-                let none_rem = if rng.chance(1, 3) { Some(rng.below(modulus as u64 + 1) as usize) } else { None };
-                let mut dgs: Vec<(usize, DG)> = (0..modulus).filter(|k| Some(*k) != none_rem).map(|k| (k, rand_dg(rng))).collect();
-                // at most one anomaly per call, so that HashMap iteration order cannot matter. A datagram whose
-                // STM size gives an invalid sampling frequency is an anomaly too (it is refused when its
-                // operation generator is built): keep at most one of those and plant nothing else next to it
-                let fails = |d: &DG| matches!(d, DG::SineGainStm(_, 3) | DG::GainStm(7, _) | DG::FociStm(11 | 3) | DG::Bad);
-                let mut seen_failing = false;
-                for (_, d) in dgs.iter_mut() {
-                    if fails(d) {
-                        if seen_failing {
-                            *d = DG::Null;
-                        }
-                        seen_failing = true;
-                    }
-                }
-                match if seen_failing { 7 } else { rng.below(8) } {
-                    0 if !dgs.is_empty() => {
-                        dgs.remove(0); // unknown key
-                    }
-                    1 => dgs.push((7, DG::Null)), // unused key
-                    2 if !dgs.is_empty() => dgs[0].1 = DG::Bad,
-                    _ => {}
-                }
-                // a pack-time failure under parallel packing leaves schedule-dependent message ids
-                // (DESIGN observation O4): such calls are made with serial packing only
-                let pack_fails = dgs.iter().any(|(_, d)| matches!(d, DG::SineGainStm(_, 3) | DG::GainStm(7, _) | DG::FociStm(11 | 3)));
-                let par = if pack_fails { 2 } else { rng.below(3) as u8 };
+                let (modulus, none_rem, dgs, par) = rand_group(rng, n, false);
                 POp::Group { modulus, none_rem, dgs, par }
             }
             7 => POp::FwVer,
             8 => POp::Fpga,
-            _ => POp::Enable(rng.below(n as u64) as usize, rng.chance(1, 2)),
+            9 => POp::Enable(rng.below(n as u64) as usize, rng.chance(1, 2)),
+            10 => POp::SendDefault(rand_dg_paced(rng)),
+            11 => {
+                // the shortcuts pack with `ParallelMode::Auto`: keep pack-time failures out (observation O4)
+                let (modulus, none_rem, mut dgs, _) = rand_group(rng, n, true);
+                for (_, d) in dgs.iter_mut() {
+                    if matches!(d, DG::SineGainStm(_, 3) | DG::GainStm(7, _) | DG::FociStm(11 | 3)) {
+                        *d = DG::GainStm(4, 9);
+                    }
+                }
+                if rng.chance(1, 2) { POp::GroupDefault { modulus, none_rem, dgs } } else { POp::GroupSlp { slp: rand_slp(rng), modulus, none_rem, dgs } }
+            }
+            _ => POp::SendSlp(rand_slp(rng), rand_dg_paced(rng)),
         });
     }
     ops
 }
 
+/// corpus: every new kind of step with datagrams of several frames (the send-interval path of the real sleepers)
+fn corpus_programs() -> Vec<(usize, Vec<POp>)> {
+    let g = |dgs: Vec<(usize, DG)>| (2usize, None::<usize>, dgs);
+    let (m, nr, dgs) = g(vec![(0, DG::GainStm(8, 0x55)), (1, DG::FociStm(25))]);
+    vec![
+        (2, vec![POp::SendSlp(Slp::Tokio, DG::GainStm(8, 0x80)), POp::SendSlp(Slp::Std, DG::GainStm(5, 1)), POp::SendSlp(Slp::Spin, DG::FociStm(25)), POp::SendDefault(DG::GainStm(8, 3)), POp::Fpga]),
+        (3, vec![POp::GroupDefault { modulus: m, none_rem: nr, dgs: dgs.clone() }, POp::GroupSlp { slp: Slp::Tokio, modulus: m, none_rem: nr, dgs: dgs.clone() }, POp::Enable(1, false), POp::GroupSlp { slp: Slp::Std, modulus: 3, none_rem: Some(1), dgs: vec![(0, DG::GainStm(5, 7)), (2, DG::SineGainStm(150, 4))] }, POp::FwVer]),
+        (1, vec![POp::Send(DG::GainStm(8, 1)), POp::SendDefault(DG::SineGainStm(100, 5)), POp::SendSlp(Slp::Tokio, DG::FociStm(20)), POp::SendSlp(Slp::Tokio, DG::Bad), POp::SendDefault(DG::Clear)]),
+    ]
+}
+
+#[derive(Default)]
+struct Pace {
+    /// `send_interval` of the step being run; zero = no bound applies (no-op sleeper, single-frame calls)
+    interval: Duration,
+    t_update: Option<Instant>,
+    k: u32,
+    early: Vec<String>,
+    paced: usize,
+}
+
 struct RecLink {
     inner: EmuLink,
     frames: Arc<Mutex<Vec<String>>>,
+    pace: Arc<Mutex<Pace>>,
 }
 impl RecLink {
+    fn rec_update(&self) {
+        // part of the compared record: a wrapper that swallows `link.update` shows here
+        self.frames.lock().unwrap().push("u".into());
+        let mut p = self.pace.lock().unwrap();
+        p.t_update = Some(Instant::now());
+        p.k = 0;
+    }
     fn rec(&self, tx: &[TxMessage]) {
         use zerocopy::IntoBytes;
+        {
+            // One-sided and load-proof: `send_impl` takes `send_timing = Instant::now()` after `link.update`
+            // returned and lets frame k (k >= 1) out only after `sleep_until(send_timing + k x send_interval)`;
+            // a busy machine can only make a frame later, never earlier.  Never compared between runs.
+            let mut p = self.pace.lock().unwrap();
+            if let Some(t0) = p.t_update {
+                let el = t0.elapsed();
+                let k = p.k;
+                if k >= 1 && !p.interval.is_zero() {
+                    p.paced += 1;
+                    if el < p.interval * k {
+                        let iv = p.interval;
+                        p.early.push(format!("frame {k} of a datagram left {} us after link.update (send_interval {} us: not before {} us)", el.as_micros(), iv.as_micros(), (iv * k).as_micros()));
+                    }
+                }
+                p.k += 1;
+            }
+        }
         let mut h = vec![];
         for t in tx {
             h.push(format!("{:02x}:{:016x}", t.header.msg_id, fnv64(t.as_bytes())));
@@ -1258,7 +1495,12 @@ impl Link for RecLink {
         Link::open(&mut self.inner, g)
     }
     fn close(&mut self) -> Result<(), LinkError> {
+        self.frames.lock().unwrap().push("k".into());
         Link::close(&mut self.inner)
+    }
+    fn update(&mut self, _: &Geometry) -> Result<(), LinkError> {
+        self.rec_update();
+        Ok(())
     }
     fn send(&mut self, tx: &[TxMessage]) -> Result<(), LinkError> {
         self.rec(tx);
@@ -1277,7 +1519,12 @@ impl AsyncLink for RecLink {
         AsyncLink::open(&mut self.inner, g).await
     }
     async fn close(&mut self) -> Result<(), LinkError> {
+        self.frames.lock().unwrap().push("k".into());
         AsyncLink::close(&mut self.inner).await
+    }
+    async fn update(&mut self, _: &Geometry) -> Result<(), LinkError> {
+        self.rec_update();
+        Ok(())
     }
     async fn send(&mut self, tx: &[TxMessage]) -> Result<(), LinkError> {
         self.rec(tx);
@@ -1312,66 +1559,174 @@ fn canon_keys(r: &str) -> String {
     r.to_string()
 }
 
-fn run_program(is_async: bool, rt: &tokio::runtime::Runtime, n: usize, prog: &[POp]) -> ProgLog {
+fn paced_option<S: std::fmt::Debug>(sleeper: S) -> SenderOption<S> {
+    SenderOption {
+        send_interval: Duration::from_millis(PACE_MS),
+        receive_interval: Duration::from_millis(PACE_MS),
+        timeout: Some(Duration::from_millis(SHORT_MS)),
+        parallel: ParallelMode::Auto,
+        sleeper,
+    }
+}
+
+/// the `send_interval` whose pacing the link can hold the step to (zero: none)
+fn pace_of(op: &POp) -> Duration {
+    match op {
+        POp::SendDefault(_) | POp::GroupDefault { .. } => Duration::from_millis(1),
+        POp::SendSlp(..) | POp::GroupSlp { .. } => Duration::from_millis(PACE_MS),
+        _ => Duration::ZERO,
+    }
+}
+
+/// the steps of a program on the async controller (plain or boxed link)
+async fn run_ops_async<L: AsyncLink>(c: &mut autd3::r#async::Controller<L>, prog: &[POp], pace: &Arc<Mutex<Pace>>, sleeps: &Arc<AtomicUsize>, lines: &mut Vec<String>) {
+    use autd3::controller::{SpinSleeper, StdSleeper};
+    use autd3::r#async::controller::AsyncSleeper;
+    for op in prog {
+        {
+            let mut p = pace.lock().unwrap();
+            p.interval = pace_of(op);
+            p.t_update = None;
+        }
+        sleeps.store(0, Ordering::SeqCst);
+        let r = match op {
+            POp::Send(d) => format!("{:?}", c.sender(option(T::S, 0, false, sleeps)).send(build(d)).await),
+            POp::Group { modulus, none_rem, dgs, par } => {
+                let (km, dm) = group_args(*modulus, *none_rem, dgs);
+                format!("{:?}", c.sender(option(T::S, *par, false, sleeps)).group_send(km, dm).await)
+            }
+            POp::FwVer => format!("{:?}", c.firmware_version().await),
+            POp::Fpga => format!("{:?}", c.fpga_state().await),
+            POp::Enable(i, b) => {
+                c.geometry_mut().iter_mut().nth(*i).unwrap().enable = *b;
+                "set".into()
+            }
+            POp::SendDefault(d) => format!("{:?}", c.send(build(d)).await),
+            POp::GroupDefault { modulus, none_rem, dgs } => {
+                let (km, dm) = group_args(*modulus, *none_rem, dgs);
+                format!("{:?}", c.group_send(km, dm).await)
+            }
+            POp::SendSlp(slp, d) => match slp {
+                Slp::Std => format!("{:?}", c.sender(paced_option(StdSleeper::default())).send(build(d)).await),
+                Slp::Spin => format!("{:?}", c.sender(paced_option(SpinSleeper::default())).send(build(d)).await),
+                Slp::Tokio => format!("{:?}", c.sender(paced_option(AsyncSleeper::default())).send(build(d)).await),
+            },
+            POp::GroupSlp { slp, modulus, none_rem, dgs } => {
+                let (km, dm) = group_args(*modulus, *none_rem, dgs);
+                match slp {
+                    Slp::Std => format!("{:?}", c.sender(paced_option(StdSleeper::default())).group_send(km, dm).await),
+                    Slp::Spin => format!("{:?}", c.sender(paced_option(SpinSleeper::default())).group_send(km, dm).await),
+                    Slp::Tokio => format!("{:?}", c.sender(paced_option(AsyncSleeper::default())).group_send(km, dm).await),
+                }
+            }
+        };
+        // `sleeps`: calls of `sleep_until` on the counting no-op sleeper (steps that use it)
+        lines.push(format!("{} enable={:?} sleeps={}", canon_keys(&r), c.geometry().iter().map(|d| d.enable).collect::<Vec<_>>(), sleeps.load(Ordering::SeqCst)));
+    }
+    pace.lock().unwrap().interval = Duration::ZERO;
+}
+
+fn run_ops_sync(c: &mut Controller<RecLink>, prog: &[POp], pace: &Arc<Mutex<Pace>>, sleeps: &Arc<AtomicUsize>, lines: &mut Vec<String>) {
+    use autd3::controller::{SpinSleeper, StdSleeper};
+    for op in prog {
+        {
+            let mut p = pace.lock().unwrap();
+            p.interval = pace_of(op);
+            p.t_update = None;
+        }
+        sleeps.store(0, Ordering::SeqCst);
+        let r = match op {
+            POp::Send(d) => format!("{:?}", c.sender(option(T::S, 0, false, sleeps)).send(build(d))),
+            POp::Group { modulus, none_rem, dgs, par } => {
+                let (km, dm) = group_args(*modulus, *none_rem, dgs);
+                format!("{:?}", c.sender(option(T::S, *par, false, sleeps)).group_send(km, dm))
+            }
+            POp::FwVer => format!("{:?}", c.firmware_version()),
+            POp::Fpga => format!("{:?}", c.fpga_state()),
+            POp::Enable(i, b) => {
+                c.geometry_mut().iter_mut().nth(*i).unwrap().enable = *b;
+                "set".into()
+            }
+            POp::SendDefault(d) => format!("{:?}", c.send(build(d))),
+            POp::GroupDefault { modulus, none_rem, dgs } => {
+                let (km, dm) = group_args(*modulus, *none_rem, dgs);
+                format!("{:?}", c.group_send(km, dm))
+            }
+            POp::SendSlp(slp, d) => match slp {
+                Slp::Std => format!("{:?}", c.sender(paced_option(StdSleeper::default())).send(build(d))),
+                Slp::Spin | Slp::Tokio => format!("{:?}", c.sender(paced_option(SpinSleeper::default())).send(build(d))),
+            },
+            POp::GroupSlp { slp, modulus, none_rem, dgs } => {
+                let (km, dm) = group_args(*modulus, *none_rem, dgs);
+                match slp {
+                    Slp::Std => format!("{:?}", c.sender(paced_option(StdSleeper::default())).group_send(km, dm)),
+                    Slp::Spin | Slp::Tokio => format!("{:?}", c.sender(paced_option(SpinSleeper::default())).group_send(km, dm)),
+                }
+            }
+        };
+        lines.push(format!("{} enable={:?} sleeps={}", canon_keys(&r), c.geometry().iter().map(|d| d.enable).collect::<Vec<_>>(), sleeps.load(Ordering::SeqCst)));
+    }
+    pace.lock().unwrap().interval = Duration::ZERO;
+}
+
+fn run_program(is_async: bool, rt: &tokio::runtime::Runtime, env: ProgEnv, n: usize, prog: &[POp]) -> ProgLog {
     let cpus = Arc::new(Mutex::new((0..n).map(|i| CPUEmulator::new(i, 249)).collect::<Vec<_>>()));
     let frames = Arc::new(Mutex::new(vec![]));
     let acks = Arc::new(Mutex::new(vec![]));
-    let link = RecLink { inner: EmuLink { cpus: cpus.clone(), open: false, acks: acks.clone(), fail_sends: 0 }, frames: frames.clone() };
+    let pace: Arc<Mutex<Pace>> = Default::default();
+    let sleeps = Arc::new(AtomicUsize::new(0));
+    let link = RecLink { inner: EmuLink { cpus: cpus.clone(), open: false, acks: acks.clone(), fail_sends: 0 }, frames: frames.clone(), pace: pace.clone() };
     let mut lines = vec![];
     let res = guarded(|| {
         let mut lines = vec![];
         if is_async {
             rt.block_on(async {
-                let mut c = match autd3::r#async::Controller::open_with_option(devices(n), link, option(T::S, 0, false)).await {
+                let c = match autd3::r#async::Controller::open_with_option(devices(n), link, option(T::S, 0, false, &sleeps)).await {
                     Ok(c) => c,
                     Err(e) => {
                         lines.push(format!("open: {e:?}"));
                         return;
                     }
                 };
-                for op in prog {
-                    let r = match op {
-                        POp::Send(d) => format!("{:?}", c.sender(option(T::S, 0, false)).send(build(d)).await),
-                        POp::Group { modulus, none_rem, dgs, par } => {
-                            let (km, dm) = group_args(*modulus, *none_rem, dgs);
-                            format!("{:?}", c.sender(option(T::S, *par, false)).group_send(km, dm).await)
-                        }
-                        POp::FwVer => format!("{:?}", c.firmware_version().await),
-                        POp::Fpga => format!("{:?}", c.fpga_state().await),
-                        POp::Enable(i, b) => {
-                            c.geometry_mut().iter_mut().nth(*i).unwrap().enable = *b;
-                            "set".into()
-                        }
-                    };
-                    lines.push(format!("{} enable={:?}", canon_keys(&r), c.geometry().iter().map(|d| d.enable).collect::<Vec<_>>()));
+                if env.boxed {
+                    let mut c = c.into_boxed_link();
+                    run_ops_async(&mut c, prog, &pace, &sleeps, &mut lines).await;
+                    if env.end_drop {
+                        drop(c);
+                        lines.push("drop".into());
+                    } else if prog.len() % 2 == 0 {
+                        // back through `from_boxed_link`
+                        let c = unsafe { autd3::r#async::Controller::<RecLink>::from_boxed_link(c) };
+                        lines.push(format!("close: {:?}", c.close().await));
+                    } else {
+                        lines.push(format!("close: {:?}", c.close().await));
+                    }
+                } else {
+                    let mut c = c;
+                    run_ops_async(&mut c, prog, &pace, &sleeps, &mut lines).await;
+                    if env.end_drop {
+                        drop(c);
+                        lines.push("drop".into());
+                    } else {
+                        lines.push(format!("close: {:?}", c.close().await));
+                    }
                 }
-                lines.push(format!("close: {:?}", c.close().await));
             });
         } else {
-            let mut c = match Controller::open_with_option(devices(n), link, option(T::S, 0, false)) {
+            let mut c = match Controller::open_with_option(devices(n), link, option(T::S, 0, false, &sleeps)) {
                 Ok(c) => c,
                 Err(e) => {
                     lines.push(format!("open: {e:?}"));
                     return lines;
                 }
             };
-            for op in prog {
-                let r = match op {
-                    POp::Send(d) => format!("{:?}", c.sender(option(T::S, 0, false)).send(build(d))),
-                    POp::Group { modulus, none_rem, dgs, par } => {
-                        let (km, dm) = group_args(*modulus, *none_rem, dgs);
-                        format!("{:?}", c.sender(option(T::S, *par, false)).group_send(km, dm))
-                    }
-                    POp::FwVer => format!("{:?}", c.firmware_version()),
-                    POp::Fpga => format!("{:?}", c.fpga_state()),
-                    POp::Enable(i, b) => {
-                        c.geometry_mut().iter_mut().nth(*i).unwrap().enable = *b;
-                        "set".into()
-                    }
-                };
-                lines.push(format!("{} enable={:?}", canon_keys(&r), c.geometry().iter().map(|d| d.enable).collect::<Vec<_>>()));
+            run_ops_sync(&mut c, prog, &pace, &sleeps, &mut lines);
+            if env.end_drop {
+                drop(c);
+                lines.push("drop".into());
+            } else {
+                lines.push(format!("close: {:?}", c.close()));
             }
-            lines.push(format!("close: {:?}", c.close()));
         }
         lines
     });
@@ -1381,29 +1736,63 @@ fn run_program(is_async: bool, rt: &tokio::runtime::Runtime, n: usize, prog: &[P
     }
     lines.push(format!("frames: {}", frames.lock().unwrap().join(" ")));
     lines.push(format!("acks: {}", acks.lock().unwrap().join(" ")));
-    ProgLog { lines }
+    lines.push(format!(
+        "devices after: {}",
+        cpus.lock().unwrap().iter().map(|c| format!("{:02x}/{}", c.rx().ack(), if c.reads_fpga_state() { "r" } else { "-" })).collect::<Vec<_>>().join(" ")
+    ));
+    let p = pace.lock().unwrap();
+    ProgLog { lines, early: p.early.clone(), paced: p.paced }
 }
 
 fn program_phase(out: &mut Out, thorough: bool, seed: u64) {
-    let rt = tokio::runtime::Builder::new_current_thread().enable_time().build().unwrap();
+    let rt_ct = tokio::runtime::Builder::new_current_thread().enable_time().build().unwrap();
+    let rt_mt = tokio::runtime::Builder::new_multi_thread().worker_threads(1).enable_time().build().unwrap();
     let mut rng = Rng::new(seed ^ 0xC11);
     let nprog = if thorough { 1500 } else { 250 };
+    // corpus first: every new kind of step under every environment (runtime flavour x boxed link), closing and dropping
+    let mut progs: Vec<(usize, Vec<POp>, ProgEnv)> = vec![];
+    for (n, p) in corpus_programs() {
+        for (mt, boxed, end_drop) in [(false, false, false), (false, true, false), (true, false, false), (true, true, false), (true, false, true), (true, true, true)] {
+            progs.push((n, p.clone(), ProgEnv { mt, boxed, end_drop }));
+        }
+    }
     for pi in 0..nprog {
         let n = 1 + rng.below(4) as usize;
         let prog = rand_program(&mut rng, n);
-        let a = run_program(true, &rt, n, &prog);
-        let s = run_program(false, &rt, n, &prog);
-        let text = format!("prog n={n} {prog:?}");
+        // the environment is a function of the index (no generator draws)
+        let mt = pi % 3 == 1;
+        let env = ProgEnv { mt, boxed: pi % 4 >= 2, end_drop: mt && pi % 5 == 0 };
+        progs.push((n, prog, env));
+    }
+    for (pi, (n, prog, env)) in progs.iter().enumerate() {
+        let (n, env) = (*n, *env);
+        let a = run_program(true, if env.mt { &rt_mt } else { &rt_ct }, env, n, prog);
+        let s = run_program(false, &rt_ct, env, n, prog);
+        let text = format!("prog n={n} {env:?} {prog:?}");
         out.case(Some(fnv64(text.as_bytes())));
         out.count("programs(sync-vs-async)");
-        for op in &prog {
+        out.count(if env.mt { "prog-runtime:multi-thread" } else { "prog-runtime:current-thread" });
+        if env.boxed {
+            out.count("prog-link:boxed(Box<dyn AsyncLink>)");
+        }
+        out.count(if env.end_drop { "prog-end:drop-while-open" } else { "prog-end:close" });
+        for op in prog {
             out.count(match op {
                 POp::Send(_) => "prog-op:send",
                 POp::Group { .. } => "prog-op:group_send",
                 POp::FwVer => "prog-op:firmware_version",
                 POp::Fpga => "prog-op:fpga_state",
                 POp::Enable(..) => "prog-op:enable",
+                POp::SendDefault(_) => "prog-op:Controller::send(default option, default sleeper)",
+                POp::GroupDefault { .. } => "prog-op:Controller::group_send(default option, default sleeper)",
+                POp::SendSlp(Slp::Std, _) | POp::GroupSlp { slp: Slp::Std, .. } => "prog-op:paced(StdSleeper)",
+                POp::SendSlp(Slp::Spin, _) | POp::GroupSlp { slp: Slp::Spin, .. } => "prog-op:paced(SpinSleeper)",
+                POp::SendSlp(Slp::Tokio, _) | POp::GroupSlp { slp: Slp::Tokio, .. } => "prog-op:paced(AsyncSleeper|sync default)",
             });
+        }
+        out.count_n("prog-paced-frames(async)", a.paced as u64);
+        if a.lines.iter().any(|l| l.contains("sleeps=") && !l.contains("sleeps=0")) {
+            out.count("prog-with-counted-sleeps");
         }
         for l in a.lines.iter() {
             for k in ["UnkownKey", "UnusedKey", "Generator", "InvalidDateTime", "panic"] {
@@ -1417,9 +1806,18 @@ fn program_phase(out: &mut Out, thorough: bool, seed: u64) {
             let cut = |l: Option<&String>| l.map(|x| x.chars().take(300).collect::<String>()).unwrap_or_else(|| "<missing>".into());
             out.violation(
                 format!("async-vs-sync-prog:{:016x}", fnv64(text.as_bytes())),
-                format!("program {pi} ({n} devices): step {i}: async `{}` / sync `{}`", cut(a.lines.get(i)), cut(s.lines.get(i))),
-                vec![text],
+                format!("program {pi} ({n} devices, {env:?}): step {i}: async `{}` / sync `{}`", cut(a.lines.get(i)), cut(s.lines.get(i))),
+                vec![text.clone()],
             );
+        } else if !a.early.is_empty() && s.early.is_empty() {
+            // the sync copy kept to its send slots, the async copy did not: its sleeper did not sleep
+            out.violation(
+                format!("async-send-interval-ignored:{:016x}", fnv64(text.as_bytes())),
+                format!("program {pi} ({n} devices, {env:?}): the async sender let a frame out before its send slot ({} of {} paced frames; the sync sender none of {}): {}", a.early.len(), a.paced, s.paced, a.early[0]),
+                vec![text.clone()],
+            );
+        } else if !a.early.is_empty() {
+            out.count("prog-early-frames-in-both-copies");
         }
     }
 }
@@ -2042,7 +2440,7 @@ fn mask_corpus(rng: &mut Rng) -> Vec<MaskChunk> {
         c.enable(&parse_mask("11"));
         c.push(one(T::S, vec![1, 1], vec![np(vec![Kind::P, Kind::R], false), np(vec![Kind::R, Kind::R], false)]), rng);
         c.enable(&parse_mask("01"));
-        c.push(Case::Close { c: pass_close(2) }, rng);
+        c.push(Case::Close { c: pass_close(2), drop: CloseS::Closed }, rng);
         out.push(c);
     }
     {
@@ -2244,7 +2642,7 @@ fn mask_chunks(thorough: bool, rng: &mut Rng) -> Vec<MaskChunk> {
                 sends[if variant == 1 { 0 } else { 2 }] = bad;
                 CloseS::Open { sends, close_ok: true }
             };
-            c.push(Case::Close { c: close }, rng);
+            c.push(Case::Close { c: close, drop: CloseS::Closed }, rng);
             out.push(c);
         }
     }
@@ -2252,9 +2650,17 @@ fn mask_chunks(thorough: bool, rng: &mut Rng) -> Vec<MaskChunk> {
     // ---- random scenarios: masks change between calls -------------------------------------------------
     let nrand = if thorough { 60_000 } else { 3_000 };
     let mut made = 0;
+    let mut nchunk = 0usize;
     while made < nrand {
+        nchunk += 1;
         let n = 2 + rng.below(3) as usize;
         let mut c = MaskChunk::new(n, *rng.pick(&[T::S, T::L, T::Z]));
+        if nchunk % 4 == 2 {
+            // (`sender_async`; no line in `sender`) the whole scenario on a multi-thread runtime
+            let f = Case::Flavor { mt: true, sync_dup: false };
+            c.cases.insert(0, f.clone());
+            c.twin.insert(0, f);
+        }
         let len = 40 + rng.below(60) as usize;
         for i in 0..len {
             if i == 0 || rng.chance(1, 7) {
@@ -2315,7 +2721,7 @@ fn mask_chunks(thorough: bool, rng: &mut Rng) -> Vec<MaskChunk> {
             made += 1;
         }
         if rng.chance(1, 3) {
-            c.push(Case::Close { c: pass_close(n) }, rng);
+            c.push(Case::Close { c: pass_close(n), drop: CloseS::Closed }, rng);
         }
         out.push(c);
     }
@@ -2372,7 +2778,7 @@ fn build_plan(thorough: bool, seed: u64) -> Plan {
             sc: SendS { update_ok: true, frames: vec![FrameS { open: true, send_ok: true, polls: vec![np(vec![Kind::G, Kind::P], true)] }, FrameS { open: true, send_ok: true, polls: vec![np(vec![Kind::P, Kind::E(0x8E)], true)] }] },
         });
         c.push(Case::SendX { t: T::N, td: T::Z });
-        c.push(Case::Close { c: pass_close(n) });
+        c.push(Case::Close { c: pass_close(n), drop: CloseS::Closed });
         chunks.push(c);
     }
     // (b) every left-over message id on real emulators
@@ -2527,7 +2933,15 @@ fn build_plan(thorough: bool, seed: u64) -> Plan {
                 if pass {
                     c.push(Case::Send { t: T::L, td: T::S, par: 0, frames: vec![1; n], sc: pass_send(n, 1, 0) });
                 }
-                chunks.push(c);
+                if matches!(c[0], Case::Open { drop: CloseS::Open { .. }, .. }) {
+                    // C11: the same failing open on a multi-thread runtime, where the async `Drop` must close the link
+                    let mut m = vec![Case::Flavor { mt: true, sync_dup: true }];
+                    m.extend(c.iter().cloned());
+                    chunks.push(c);
+                    chunks.push(m);
+                } else {
+                    chunks.push(c);
+                }
             }
         }
         // link.open fails; update/send/is_open faults in either send of open
@@ -2544,6 +2958,11 @@ fn build_plan(thorough: bool, seed: u64) -> Plan {
                 let mut c = vec![Case::Open { n, t: T::S, open_ok: true, ff, cs, drop }];
                 if which == 0 {
                     c.push(Case::Send { t: T::L, td: T::S, par: 0, frames: vec![2; n], sc: pass_send(n, 2, 0) });
+                }
+                if which == 1 && fault == 2 {
+                    let mut m = vec![Case::Flavor { mt: true, sync_dup: true }];
+                    m.extend(c.iter().cloned());
+                    chunks.push(m);
                 }
                 chunks.push(c);
             }
@@ -2579,10 +2998,10 @@ fn build_plan(thorough: bool, seed: u64) -> Plan {
                     sends[2] = SendS { update_ok: true, frames: vec![FrameS { open: true, send_ok: false, polls: vec![] }] };
                     close_ok = false;
                 }
-                chunks.push(vec![plain_open(n, T::S), Case::Send { t: T::L, td: T::S, par: 0, frames: vec![1; n], sc: pass_send(n, 1, 0) }, Case::Close { c: CloseS::Open { sends, close_ok } }]);
+                chunks.push(vec![plain_open(n, T::S), Case::Send { t: T::L, td: T::S, par: 0, frames: vec![1; n], sc: pass_send(n, 1, 0) }, Case::Close { c: CloseS::Open { sends, close_ok }, drop: CloseS::Closed }]);
             }
         }
-        chunks.push(vec![plain_open(n, T::S), Case::Close { c: CloseS::Closed }]);
+        chunks.push(vec![plain_open(n, T::S), Case::Close { c: CloseS::Closed, drop: CloseS::Closed }]);
 
         // firmware_version / fpga_state, interleaved so that stale buffer contents matter
         let mut c = vec![plain_open(n, T::S)];
@@ -2614,12 +3033,53 @@ fn build_plan(thorough: bool, seed: u64) -> Plan {
         chunks.push(c);
     }
 
+    // ---- Drop at the end of `close(self)` while the link (still / again) says it is open ------------
+    // `link.close` failed, or the link keeps answering "open" after a close that succeeded: the sync copy's `Drop`
+    // runs `close_impl` once more; the async copy's does so on a multi-thread runtime and only asks `is_open` on a
+    // current-thread one.  Every variant on both flavours (no generator draws: the cases below stay as they were)
+    for n in 1..=3usize {
+        let failing_close = |close_ok: bool| CloseS::Open { sends: [pass_send(n, 1, 1), pass_send(n, 1, 2), pass_send(n, 1, 3)], close_ok };
+        let bad_update = SendS { update_ok: false, frames: vec![] };
+        let bad_send = SendS { update_ok: true, frames: vec![FrameS { open: true, send_ok: false, polls: vec![] }] };
+        let variants: Vec<(CloseS, CloseS)> = vec![
+            (failing_close(false), pass_close(n)),
+            (pass_close(n), pass_close(n)),
+            (failing_close(false), CloseS::Open { sends: [pass_send(n, 1, 4), bad_update.clone(), pass_send(n, 1, 6)], close_ok: true }),
+            (failing_close(false), failing_close(false)),
+            (CloseS::Closed, pass_close(n)),
+            (CloseS::Open { sends: [bad_send.clone(), pass_send(n, 1, 2), pass_send(n, 1, 3)], close_ok: true }, CloseS::Open { sends: [pass_send(n, 1, 4), pass_send(n, 1, 5), bad_send.clone()], close_ok: true }),
+        ];
+        for (c, drop) in variants {
+            for mt in [false, true] {
+                let mut ch = vec![];
+                if mt {
+                    ch.push(Case::Flavor { mt: true, sync_dup: true });
+                }
+                ch.push(plain_open(n, T::S));
+                ch.push(Case::Send { t: T::L, td: T::S, par: 0, frames: vec![2; n], sc: pass_send(n, 2, 0) });
+                if n == 2 {
+                    // … with a device disabled: close (and Drop's close) enable every device first
+                    ch.push(Case::Enable { mask: vec![true, false] });
+                }
+                ch.push(Case::Close { c: c.clone(), drop: drop.clone() });
+                chunks.push(ch);
+            }
+        }
+    }
+
     // ---- random multi-frame scenarios ----------------------------------------------------------
     let nrand = if thorough { 150_000 } else { 8_000 };
     let mut made = 0;
+    let mut nchunk = 0usize;
     while made < nrand {
+        nchunk += 1;
         let n = 1 + rng.below(3) as usize;
-        let mut c = vec![plain_open(n, *rng.pick(&[T::S, T::L, T::Z]))];
+        let mut c = vec![];
+        if nchunk % 4 == 1 {
+            // (`sender_async`; no line in `sender`) the whole scenario on a multi-thread runtime
+            c.push(Case::Flavor { mt: true, sync_dup: false });
+        }
+        c.push(plain_open(n, *rng.pick(&[T::S, T::L, T::Z])));
         let len = 40 + rng.below(80) as usize;
         for _ in 0..len {
             let r = rng.below(100);
@@ -2642,7 +3102,7 @@ fn build_plan(thorough: bool, seed: u64) -> Plan {
             made += 1;
         }
         if rng.chance(1, 3) {
-            c.push(Case::Close { c: pass_close(n) });
+            c.push(Case::Close { c: pass_close(n), drop: CloseS::Closed });
         }
         chunks.push(c);
     }
@@ -2682,8 +3142,23 @@ fn classify(case: &Case, ran: &Ran) -> (Option<u64>, Vec<String>) {
         Case::Close { .. } => "close",
         Case::Enable { .. } => "enable",
         Case::Stale { .. } => "stale",
+        Case::Flavor { .. } => "flavor",
     };
     counts.push(format!("op:{kind}"));
+    if ran.mt {
+        counts.push(format!("runtime:multi-thread:{kind}"));
+    }
+    if ran.boxed {
+        counts.push(format!("link:boxed(Box<dyn AsyncLink>):{kind}"));
+    }
+    if matches!(case, Case::Open { .. } | Case::Send { .. }) {
+        counts.push(format!("sleep_until-calls:{}", ran.sleeps.min(9)));
+    }
+    match case {
+        Case::Close { drop: CloseS::Open { .. }, .. } => counts.push(format!("drop-after-close:link-says-open:{}", if ran.drop_must_close { "Drop-closes" } else { "Drop-only-asks" })),
+        Case::Open { drop: CloseS::Open { .. }, .. } if ran.result != "ok" => counts.push(format!("drop-after-failed-open:link-says-open:{}", if ran.drop_must_close { "Drop-closes" } else { "Drop-only-asks" })),
+        _ => {}
+    }
     if ran.en.iter().any(|e| !*e) && !matches!(case, Case::Enable { .. }) {
         counts.push(format!("masked:{kind}"));
         let en = &ran.en;
@@ -2765,7 +3240,7 @@ fn classify(case: &Case, ran: &Ran) -> (Option<u64>, Vec<String>) {
         Case::Send { sc, .. } => ran.result == "ok" && sc.frames.iter().all(|f| f.polls.len() == 1 && matches!(&f.polls[0], PollS::Poll { recv, late: false } if recv.all_right())),
         Case::Open { ff, cs, .. } => ran.result == "ok" && ff.frames.iter().chain(cs.frames.iter()).all(|f| f.polls.len() == 1 && matches!(&f.polls[0], PollS::Poll { recv, late: false } if recv.all_right())),
         Case::Stale { .. } => false,
-        Case::Enable { .. } => true,
+        Case::Enable { .. } | Case::Flavor { .. } => true,
         _ => false,
     };
     let sig = if trivial {
@@ -2789,7 +3264,7 @@ fn classify(case: &Case, ran: &Ran) -> (Option<u64>, Vec<String>) {
             }
             s
         };
-        Some(fnv64(format!("{shape}|{}|{}", ran.result, bits(&ran.en)).as_bytes()))
+        Some(fnv64(format!("{shape}|{}|{}{}", ran.result, bits(&ran.en), if ran.mt { "|mt" } else { "" }).as_bytes()))
     };
     (sig, counts)
 }
@@ -2813,6 +3288,19 @@ fn check_oracle(case: &Case, ran: &Ran) -> Option<(String, String, Vec<String>)>
     };
     if ran.result.starts_with("panic") {
         return mk(format!("the call panicked: {}", ran.result));
+    }
+    if ran.drop_must_close && ran.mt {
+        // (C11; the sync copy's `Drop` is outside C04's statement) a controller dropped while the link says it is open closes it (sync copy; async copy on a multi-thread
+        // runtime): `Drop` asks `is_open`, `close_impl` asks again, sends and calls `link.close`
+        let n_close = ran.calls.iter().filter(|c| matches!(c, Call::Close(_))).count();
+        let want = if matches!(case, Case::Close { c: CloseS::Open { .. }, .. }) { 2 } else { 1 };
+        let drop_script_says_open = match case {
+            Case::Close { drop: CloseS::Open { .. }, .. } | Case::Open { drop: CloseS::Open { .. }, .. } => true,
+            _ => false,
+        };
+        if drop_script_says_open && n_close < want {
+            return mk(format!("the controller was dropped while the link said it was open and `link.close` was not called ({n_close} close call(s), {want} expected): the devices are left as they were"));
+        }
     }
     match case {
         Case::Send { t, td, .. } => {
@@ -2959,6 +3447,12 @@ pub fn run(args: &Args, is_async: bool) {
                         break;
                     }
                     let chunk = &plan.chunks[ci];
+                    if !is_async && matches!(chunk.first(), Some(Case::Flavor { sync_dup: true, .. })) {
+                        continue; // a copy of another chunk that differs in the async runtime flavour only
+                    }
+                    // C11: every eighth chunk of `sender_async` runs with the link boxed after `open`
+                    // (`into_boxed_link`): same op lines, same model, same lock-step comparison
+                    w.boxed = is_async && ci % 8 == 5;
                     let twin_cases: Option<&Vec<Case>> = if twin_w.is_some() { plan.twins[ci].as_ref() } else { None };
                     let mut emitted: Vec<Emitted> = vec![];
                     // the open line that started the current controller (re-issued after a discarded case)
@@ -2969,6 +3463,16 @@ pub fn run(args: &Args, is_async: bool) {
                     let mut tries = 0;
                     while i < chunk.len() {
                         let case = &chunk[i];
+                        if let Case::Flavor { .. } = case {
+                            // the runtime flavour exists for the async copy only: a line of `sender_async`
+                            if is_async {
+                                let ran = w.run(case);
+                                let (sig, counts) = classify(case, &ran);
+                                emitted.push(Emitted { op: case.text(), answer: ran.answer.clone(), sig, counts, violation: None });
+                            }
+                            i += 1;
+                            continue;
+                        }
                         let needs_ctl = !matches!(case, Case::Open { .. } | Case::Stale { .. });
                         if needs_ctl && w.ctl.is_none() {
                             // (re)open with the chunk's opener; an opener that fails ends the chunk
@@ -3067,17 +3571,38 @@ pub fn run(args: &Args, is_async: bool) {
                         let mut violation = check_oracle(case, &ran);
                         if let Some(rs) = &ran_sync {
                             // C11 on the implementation: same result, same calls on the link.  The one
-                            // intended difference: dropping a half-open controller (failed `open`)
-                            // closes the link in the sync copy and only asks `is_open` in the async one.
-                            let same = if matches!(case, Case::Open { .. }) && ran.result != "ok" {
+                            // intended difference, on a **current-thread** runtime only: dropping a controller
+                            // while the link says it is open (a failed `open`; the end of `close(self)`) closes the
+                            // link in the sync copy and only asks `is_open` in the async one.  On a multi-thread
+                            // runtime (`flavor mt` chunks) there is no exemption: the async `Drop` must close too.
+                            let dropped = (matches!(case, Case::Open { .. }) && ran.result != "ok") || matches!(case, Case::Close { drop: CloseS::Open { .. }, .. });
+                            let same = if dropped && !ran.mt {
                                 ran.result == rs.result && rs.answer.starts_with(ran.answer.trim_end_matches(|c| c == 'o' || c == 'c'))
                             } else {
                                 ran.answer == rs.answer
                             };
+                            let ctx = format!("{}{}", if ran.mt { "[multi-thread runtime] " } else { "" }, if ran.boxed { "[link boxed after open] " } else { "" });
                             if !same {
-                                let key = format!("async-vs-sync:{}", case.text().replace(' ', "_"));
+                                let key = format!("async-vs-sync:{}{}", if ran.mt { "mt:" } else { "" }, case.text().replace(' ', "_"));
                                 let key = if key.len() > 160 { format!("{}#{:016x}", &key[..140], fnv64(key.as_bytes())) } else { key };
-                                violation = Some((key, format!("async controller: `{}`; sync controller: `{}`", ran.answer, rs.answer), vec![case.text()]));
+                                let mut replay = vec![];
+                                if ran.mt {
+                                    replay.push("flavor mt".to_string());
+                                }
+                                replay.push(case.text());
+                                violation = Some((key, format!("{ctx}async controller: `{}`; sync controller: `{}`", ran.answer, rs.answer), replay));
+                            } else if ran.sleeps != rs.sleeps && violation.is_none() {
+                                // not in the model line: how often the sender called `sleep_until` on the (counting, not
+                                // sleeping) sleeper it was given.  `link_says` = what the link's record implies: one call
+                                // after every receive that is followed by another `is_open` of the same send
+                                let link_says = ran.calls.windows(2).filter(|w| matches!(w[0], Call::Recv(Some(_), _)) && matches!(w[1], Call::IsOpen(_))).count();
+                                let key = format!("async-vs-sync-sleeps:{}", case.text().replace(' ', "_"));
+                                let key = if key.len() > 160 { format!("{}#{:016x}", &key[..140], fnv64(key.as_bytes())) } else { key };
+                                violation = Some((
+                                    key,
+                                    format!("{ctx}same result and calls (`{}`), but the async sender awaited `sleep_until` {} time(s), the sync sender called it {} time(s) (receives followed by another turn in the link's record: {link_says}): send_interval/receive_interval are not honoured alike", ran.answer, ran.sleeps, rs.sleeps),
+                                    vec![case.text()],
+                                ));
                             }
                             counts.push("compared-with-sync".into());
                         }
@@ -3100,6 +3625,13 @@ pub fn run(args: &Args, is_async: bool) {
                         }
                         emitted.push(Emitted { op: case.text(), answer: ran.answer.clone(), sig, counts, violation });
                         i += 1;
+                    }
+                    if w.mt {
+                        // back to the default flavour for the chunks that follow (also when the chunk was cut short)
+                        let back = Case::Flavor { mt: false, sync_dup: false };
+                        let ran = w.run(&back);
+                        let (sig, counts) = classify(&back, &ran);
+                        emitted.push(Emitted { op: back.text(), answer: ran.answer.clone(), sig, counts, violation: None });
                     }
                     w.dispose();
                     if let Some(s) = shadow.as_mut() {
@@ -3145,7 +3677,7 @@ pub fn run(args: &Args, is_async: bool) {
         cpus[0].set_last_msg_id(2);
         let cpus = Arc::new(Mutex::new(cpus));
         let link = EmuLink { cpus: cpus.clone(), open: false, acks: Arc::new(Mutex::new(vec![])), fail_sends: 1 };
-        let r = Controller::open_with_option(devices(1), link, option(T::S, 0, false));
+        let r = Controller::open_with_option(devices(1), link, option(T::S, 0, false, &Arc::new(AtomicUsize::new(0))));
         let cleared = !cpus.lock().unwrap()[0].reads_fpga_state();
         out.notes.push(format!(
             "observation (not a violation of the quantified property): link.send fails once during the ignored ForceFan of open and the device was left with message id 2 -> open returned {} and the device {} initialised",
@@ -3158,6 +3690,17 @@ pub fn run(args: &Args, is_async: bool) {
     }
     out.count_n("timing-discarded-attempts", reruns.load(Ordering::SeqCst) as u64);
     out.count_n("timing-skipped-cases", skipped.load(Ordering::SeqCst) as u64);
+    if is_async && skipped.load(Ordering::SeqCst) > 0 {
+        // a case is skipped after 9 attempts in a row were spoilt by the clock.  The scripted `firmware_version` and
+        // `close` cases with a non-acknowledging poll are the ones in which the crate's real sleepers run; a sleeper
+        // that oversleeps by more than the 200 ms timeout spoils exactly those, every time: not a silent skip
+        let w = whys.lock().unwrap().iter().map(|(k, v)| format!("{k} x{v}")).collect::<Vec<_>>().join(", ");
+        out.violation(
+            "async-cases-never-ran-cleanly".to_string(),
+            format!("{} case(s) of sender_async could not be run without the wall clock contradicting the script in 9 attempts each ({w}): the sender (or its sleeper) is slower than the timeouts allow", skipped.load(Ordering::SeqCst)),
+            vec!["see the discard:* counters of the stream".to_string()],
+        );
+    }
     out.count_n("chunks(controllers)", nchunks as u64);
     out.notes.push(format!(
         "short timeout {SHORT_MS} ms, long {LONG_MS} ms, default {DEFAULT_MS} ms; late polls are realised by the link sleeping past the timeout; {} attempts discarded because the wall clock interfered",
@@ -3165,6 +3708,10 @@ pub fn run(args: &Args, is_async: bool) {
     ));
     out.finish(
         if is_async { "sender_async" } else { "sender" },
-        "a case is one controller call (open / enable flags / send / firmware_version / fpga_state / close / stale-id open) with its link script; trivial = plain success with every frame acknowledged on the first poll by every device, and setting enable flags; distinct by script shape (acknowledgement kinds, faults, lateness, frame counts, timeouts; data bytes erased), enable mask and result",
+        if is_async {
+            "a case is one controller call (open / enable flags / send / firmware_version / fpga_state / close with the Drop that follows / stale-id open) with its link script, or a `flavor` line (tokio runtime of the following controllers: model-visible, it decides what Drop does), or one program of the oracle-only program phase; trivial = plain success with every frame acknowledged on the first poll by every device, setting enable flags, flavor lines; distinct by script shape (acknowledgement kinds, faults, lateness, frame counts, timeouts; data bytes erased), enable mask, runtime flavour and result. Not in the model lines (oracle only, see the counters): sleep_until-calls:* (compared with the sync copy), link:boxed(..) (same lines through Box<dyn AsyncLink>), prog-op:paced(..)/prog-op:Controller::* (real sleepers, default-option shortcuts; prog-paced-frames = frames held to their send slot)"
+        } else {
+            "a case is one controller call (open / enable flags / send / firmware_version / fpga_state / close with the Drop that follows / stale-id open) with its link script; trivial = plain success with every frame acknowledged on the first poll by every device, and setting enable flags; distinct by script shape (acknowledgement kinds, faults, lateness, frame counts, timeouts; data bytes erased), enable mask and result"
+        },
     );
 }
